@@ -70,7 +70,7 @@ func (e *Envelope) Validate() error {
 // one of them. If no keys are provided, only the contents will be checked.
 func (e *Envelope) Verify(keys ...*dsig.PublicKey) error {
 	if len(e.Signatures) == 0 {
-		return errors.New("no signatures to verify")
+		return ErrSignature.WithReason("no signatures to verify")
 	}
 
 	ve := make(validation.Errors)
